@@ -394,6 +394,61 @@ def known_shape_d17(ck: Check) -> None:
                 {"copybook": text, "record": rec.hex()})
 
 
+def held_navigators(ck: Check, n: int) -> None:
+    """ONE unpacker, one schema, several records with different DEPENDING ON counts, the navigator of an earlier record HELD while the
+    later ones are navigated: afterwards the held navigator still obeys the laws -- a part of its value is the value of the part,
+    the raw bytes of a child are that slice of ITS record -- for the items after the table and their REDEFINES alternatives."""
+    import io
+
+    from stingray.cobol_parser import schema_iter
+    from stingray.schema_instance import EBCDIC, SchemaMaker, TextInstance, TextUnpacker
+
+    rng = ck.rng
+    for k in range(n):
+        w, cw = rng.randint(1, 4), rng.randint(2, 6)
+        text = ("       01  REC.\n           05  CT PIC 9.\n"
+                f"           05  TBL OCCURS 0 TO 7 TIMES DEPENDING ON CT PIC X({w}).\n"
+                f"           05  CODE-X PIC X({cw}).\n           05  CODE-9 REDEFINES CODE-X PIC 9({cw}).\n           05  TAIL PIC X(2).\n")
+        schema = SchemaMaker.from_json(next(iter(schema_iter(io.StringIO(text)))))
+        text_mode = k % 3 == 2
+        unp = TextUnpacker() if text_mode else EBCDIC()
+        counts = [rng.randint(0, 7) for _ in range(3)]
+        if len(set(counts)) == 1:
+            counts[1] = (counts[1] + 3) % 8
+        recs_t = [str(c) + "".join(chr(65 + (j + i) % 26) * w for j in range(c)) + "".join(str((i * 3 + j) % 10) for j in range(cw)) + "zy"
+                  for i, c in enumerate(counts)]
+        recs = [TextInstance(r) if text_mode else r.encode("cp037") for r in recs_t]
+        inp = {"copybook": text, "counts": counts, "records": recs_t, "reader": "text" if text_mode else "EBCDIC"}
+        ck.case(("held", text, tuple(counts), text_mode), feature="held-navigator/same-unpacker")
+        ck.oracle_evaluations += 1
+        try:
+            navs = []
+            first_seen = []
+            for r in recs:
+                nv = unp.nav(schema, r)  # type: ignore[arg-type]
+                navs.append(nv)
+                first_seen.append({f: (show_tree(nv.name(f).value()), nv.name(f).raw()) for f in ("CODE-X", "CODE-9", "TAIL")})
+            for i, (nv, r, c) in enumerate(zip(navs, recs, counts)):
+                at = 1 + c * w
+                want_raw = {"CODE-X": r[at:at + cw], "CODE-9": r[at:at + cw], "TAIL": r[at + cw:at + cw + 2]}
+                whole = nv.value()
+                for f in ("CODE-X", "CODE-9", "TAIL"):
+                    part, raw = show_tree(nv.name(f).value()), nv.name(f).raw()
+                    if raw != want_raw[f]:
+                        ck.fail("raw-slice", f"record {i} (count {c}), navigator held while records with other counts were navigated through the same "
+                                             f"unpacker: raw({f}) is {raw!r}, its record holds {want_raw[f]!r} there", {**inp, "path": f})
+                        raise StopIteration
+                    if part != show_tree(whole[f]) or (part, raw) != first_seen[i][f]:
+                        ck.fail("name-commutes", f"record {i} (count {c}), navigator held while records with other counts were navigated through the "
+                                                 f"same unpacker: value({f}) is {part}, value()[{f!r}] is {show_tree(whole[f])}, it was "
+                                                 f"{first_seen[i][f][0]} when first read", {**inp, "path": f})
+                        raise StopIteration
+        except StopIteration:
+            pass
+        except BaseException as ex:  # noqa: BLE001
+            ck.fail("name-commutes", f"held navigators through one unpacker: {type(ex).__name__}: {str(ex)[:100]}", inp)
+
+
 def explore(ck: Check, n_trees: int) -> None:
     rng = ck.rng
     reqs: list[str] = [tables_line()]
@@ -408,6 +463,7 @@ def explore(ck: Check, n_trees: int) -> None:
         if i < 2:
             ck.sample({"copybook": render([root])})
     other_navigators(ck, 20)
+    held_navigators(ck, 15 if n_trees < 200 else 120)
     known_shape_d17(ck)
     model = ck.driver.run(reqs)
     ck.compare_streams("NDNav values / decoded ranges vs Layout.valueAt∘Decode.unpack / touched", inputs, impl, model)
